@@ -15,8 +15,8 @@ from harness.formulas import FA, EX, AND, OR, NOT, SMT, PRED, COUNT, M, MCH, MNT
 from harness.smt import A, I, S, V
 
 PID = "C18"
-TIERS = {"quick": dict(plan={"ASSGN2": (7, 22, 60), "NUM": (6, 14, 50), "RIGHTREC": (6, 14, 40), "AMBIG": (5, 12, 9)}, ncheck=30, nrepair=4, nmutate=3, nform=5),
-         "thorough": dict(plan={"ASSGN2": (7, 30, 300), "NUM": (6, 16, 200), "RIGHTREC": (7, 18, 80), "XMLISH": (6, 26, 150), "AMBIG": (5, 12, 9)},
+TIERS = {"quick": dict(plan={"ASSGN2": (7, 22, 60), "NUM": (6, 14, 50), "RIGHTREC": (6, 14, 40), "AMBIG": (5, 12, 9), "NULLCHAIN": (5, 16, 40), "WIDE": (3, 90, 6)}, ncheck=30, nrepair=4, nmutate=3, nform=5),
+         "thorough": dict(plan={"ASSGN2": (7, 30, 300), "NUM": (6, 16, 200), "RIGHTREC": (7, 18, 80), "XMLISH": (6, 26, 150), "AMBIG": (5, 12, 9), "NULLCHAIN": (5, 16, 40), "WIDE": (3, 90, 6)},
                           ncheck=120, nrepair=15, nmutate=10, nform=12)}
 
 
@@ -46,6 +46,12 @@ def session_formulas(name):
     elif name == "XMLISH":
         fs = [FA("<tree>", "t", SMT(A("=", V("o"), V("c"))), mexpr=M(MCH("("), MNT("<id>", "o"), MCH(")"), MNT("<inner>"), MCH("(/"), MNT("<id>", "c"), MCH(")"))),
               EX("<text>", "t", lit("t", "x")), FA("<id>", "i", lit("i", "a")), COUNT("start", "<tree>", 2)]
+    elif name == "NULLCHAIN":
+        fs = [SMT(A("<=", A("str.len", V("start")), I(3))), EX("<b>", "b", lit("b", "x")), FA("<c>", "c", lit("c", "")),
+              FA("<a>", "a", SMT(A("<=", A("str.len", V("a")), I(1))))]
+    elif name == "WIDE":
+        fs = [FA("<d>", "x", lit("x", "0")), EX("<d>", "x", lit("x", "1")), COUNT("start", "<d>", 40),
+              FA("<row>", "r", FA("<d>", "x", lit("x", "0"), inn="r"))]
     elif name == "AMBIG":
         # constraints that tell the derivations of one string apart (the grammar is ambiguous)
         fs = [FA("<A>", "x", SMT(A("=", A("str.len", V("r")), I(1))), mexpr=M(MNT("<A>", "l"), MNT("<A>", "r"))),
@@ -129,7 +135,7 @@ def build(chk):
     cases = []
     try:
         for name, (depth, nodes, cap) in P["plan"].items():
-            g = catalogue.GRAMMARS[name]
+            g = c03.grammar_of(name)
             trees = c03.gen_trees(chk, wd, name, g, depth, nodes, 10 ** 6)     # all trees: "a parse of s" ranges over them
             L = min(max(len(pj.jyield(t)) for t in trees), 10)
             strings = sorted({pj.jyield(t) for t in trees if len(pj.jyield(t)) <= L})
